@@ -5,7 +5,7 @@ from checks.c05 import Cmd, Num, num, gen_cmd, gen_seq, gen_seq_safe, safe_dur, 
 
 ID = "C06"
 LEAN_MODULE = "Ctrmml.Properties.C06"
-THEOREMS = ["C06_per_track_state", "C06_leading_blanks_skip", "C06_bar_skip", "C06_comment_invariant", "C06_comment_line_invariant", "C06_track_id_map", "C06_track_list_ids", "C06_star_decimal", "C06_multitrack_unfold", "C06_conditional_select_partial", "C06_separator_suffices", "C06_layout_run_partial", "C06_layout_invariant_partial", "C06_multitrack_eq_single_partial", "C06_multitrack_blocks_run_partial", "C06_multitrack_eq_single_blocks_partial", "C06_alternatives_clean", "C06_nested_separator_counterexample", "C06_short_block_counterexample", "C06_layout_run2_partial", "C06_layout_invariant2_partial", "C06_multitrack_eq_single2_partial", "C06_track_count_bound", "C06_header_ids_16bit", "C06_multitrack_blocks_run16_partial", "C06_multitrack_eq_single_blocks16_partial"]
+THEOREMS = ["C06_per_track_state", "C06_leading_blanks_skip", "C06_bar_skip", "C06_comment_invariant", "C06_comment_line_invariant", "C06_track_id_map", "C06_track_list_ids", "C06_star_decimal", "C06_multitrack_unfold", "C06_conditional_select_partial", "C06_separator_suffices", "C06_layout_run_partial", "C06_layout_invariant_partial", "C06_multitrack_eq_single_partial", "C06_multitrack_blocks_run_partial", "C06_multitrack_eq_single_blocks_partial", "C06_alternatives_clean", "C06_nested_separator_counterexample", "C06_short_block_counterexample", "C06_layout_run2_partial", "C06_layout_invariant2_partial", "C06_multitrack_eq_single2_partial", "C06_track_count_bound", "C06_header_ids_16bit", "C06_multitrack_blocks_run16_partial", "C06_multitrack_eq_single_blocks16_partial", "C06_lcovered_transfer", "C06_cmdsOk_transfer", "C06_linesOk_transfer", "C06_layout_run_from_v2", "C06_layout_invariant_from_v2", "C06_multitrack_eq_single_from_v2", "C06_separator_suffices2", "C06_bare_echo_separator_counterexample"]
 LEVEL = "proof"
 STREAM = "mml.layouts"
 CHUNK = 100
@@ -31,6 +31,11 @@ LEVEL_TEXT = ("Machine-checked theorems over the Lean models of Line_Buffer (inp
               "is neither a blank nor '=', and the loop break / on lines without conditional blocks); C06_track_count_bound derives ids.length <= 65536 from Nodup + 16-bit track "
               "numbers (pigeonhole), C06_header_ids_16bit shows the ids of any header are 16-bit, and C06_multitrack_blocks_run16_partial / "
               "C06_multitrack_eq_single_blocks16_partial are the block theorems without the length hypothesis. "
+              "Round 4: the round-3 theorems formally subsume the round-2 ones - C06_lcovered_transfer (a command of LCovered is in LCovered2 and builder call, number condition, "
+              "look-ahead condition and blank count are the same in both rounds), C06_cmdsOk_transfer (CmdsOk => L2.CmdsOk with L2.runCmds = runCmds), C06_linesOk_transfer (LinesOk => L2.LinesOk "
+              "when the layout's commands are in LCovered), and C06_layout_run_from_v2 / C06_layout_invariant_from_v2 / C06_multitrack_eq_single_from_v2 = the exact round-2 statements derived from "
+              "the *2 theorems through the transfer; C06_separator_suffices2 - behind a blank, tab, '|', ';' or the end of the line the look-ahead condition L2.LCmdTail of every command holds over "
+              "LCovered2, for the echo when its duration is written (\\4, \\., \\:12); C06_bare_echo_separator_counterexample shows that condition is needed in this formulation (\\ + blank is outside L2.LCmdTail). "
               "Results are stated modulo the source references (line, column) stamped on the track, which necessarily differ between layouts. NOT proved: the same "
               "statements for \\= , _{..} / k{..} (D16 interaction), '...', \\ followed by a blank or the end of the line, V with a hex-negative number, and the loop break / or V / \\ INSIDE lines with conditional blocks; they are kept as "
               "C06_full_statement_layout_invariant / C06_full_statement_multitrack_eq_single and decided per generated case by the metamorphic correspondence stream (every "
@@ -39,8 +44,8 @@ LEVEL_TEXT = ("Machine-checked theorems over the Lean models of Line_Buffer (inp
 LEVEL_NOTE = ("Trusted: Lean kernel (propext, Classical.choice, Quot.sound), the hand-written models Model/Lexer, Model/TrackBuilder, Model/Mml (agreement with "
               "the C++ established by differential testing), Spec/Layout + Spec/MmlMeaning (my reading of mml_ref.md), the layout generator in checks/c06.py "
               "(what counts as a layout of a stream), glibc strtol in the C locale. Proved in full: track_id_map, star_decimal, per_track_state, the local lexer/parser "
-              "lemmas. Partial: conditional_select and the block theorems (hypothesis = no '/', ';', '}', NUL inside the alternatives and one alternative per track: "
-              "D16); layout_run / layout_invariant / multitrack_eq_single and their round-3 forms *2 over LCovered2 (hypothesis CmdsOk / L2.CmdsOk = the covered command subset LCovered - C05's span theorem widened in Proofs/LayoutCmd - with numbers in range; the "
+              "lemmas, the transfer lemmas lcovered_transfer / cmdsOk_transfer / linesOk_transfer, separator_suffices and separator_suffices2 (the latter with the written-duration condition on the echo). Partial: conditional_select and the block theorems (hypothesis = no '/', ';', '}', NUL inside the alternatives and one alternative per track: "
+              "D16); layout_run / layout_invariant / multitrack_eq_single (round 4: also derived from their round-3 forms, *_from_v2, through the proved transfer CmdsOk => L2.CmdsOk, LinesOk => L2.LinesOk) and their round-3 forms *2 over LCovered2 (hypothesis CmdsOk / L2.CmdsOk = the covered command subset LCovered - C05's span theorem widened in Proofs/LayoutCmd - with numbers in range; the "
               "layouts themselves are arbitrary). The layout theorems speak about the model's Track values modulo references; that the real parser produces the same "
               "events as the model on layouts is what the correspondence stream checks (the proof examples are corpus cases of the stream). Oracle only: layouts "
               "containing commands outside LCovered2 (\\= _{..} '...', \\ before a blank; V, \\ and the loop break on lines with conditional blocks), the error behaviour of rejected streams, texts that are not layouts (must be rejected).")
